@@ -15,7 +15,7 @@ LEVEL = 'exploration'
 RULE = ('Generated scope-shape programs; preserve_locals / preserve_globals drawn from the program\'s own names (bound locally, globally, in several '
         'scopes, builtin names, parameter names), absent names and duplicates; passed as list, single string, None or empty list; a literal '
         '__all__ planted in one of its three forms (plain, augmented, annotated; with non-string elements mixed in); awslambda(entrypoint=...); '
-        'the CLI spellings (--preserve-locals a,b --preserve-locals " c ,,d") through the in-process CLI; x option sets. '
+        'the CLI spellings (--preserve-locals a,b --preserve-locals " c ,,d") through the in-process CLI (stdin, and one --in-place invocation over 2-3 module files: the lists apply to every module); x option sets. '
         'Oracle: with the independent resolver over the aligned baseline/output pair every binding whose name is in the effective preserve set '
         'for its kind (function-scope bindings for preserve_locals; module-level bindings for preserve_globals, __all__ strings and the entrypoint) '
         'keeps its spelling at every occurrence; the output stays alpha-equivalent to the un-renamed baseline (preserving changes nothing but '
@@ -115,6 +115,27 @@ def oracle(case):
             return None
         if status != 0 or out != want.encode('utf-8'):
             return ('cli-preserve-spelling-differs-from-api',), {'argv': flags, 'cli': out[:400], 'api': want[:400]}
+        if case.get('multi'):
+            # one invocation over several modules: the preserve lists apply to every one of them
+            import os
+            import shutil
+            import tempfile
+            d = tempfile.mkdtemp(prefix='vf_c10_')
+            try:
+                paths = []
+                for i in range(case['multi']):
+                    pth = os.path.join(d, 'module_%d.py' % i)
+                    with open(pth, 'wb') as f:
+                        f.write(src.encode('utf-8'))
+                    paths.append(pth)
+                status, out, err = cli.run_inprocess(paths + flags + ['--in-place'], b'', force_env='1')
+                for i, pth in enumerate(paths):
+                    with open(pth, 'rb') as f:
+                        got = f.read()
+                    if status != 0 or got != want.encode('utf-8'):
+                        return ('cli-preserve-lost-on-later-module', 'module %d of %d' % (i + 1, len(paths))), {'argv': flags, 'status': status, 'stderr': err[:200], 'cli': got[:400], 'api': want[:400]}
+            finally:
+                shutil.rmtree(d, ignore_errors=True)
     return None
 
 
@@ -171,6 +192,7 @@ def cases(draw):
             if k == 1:
                 return [' %s ' % x for x in lst]
             return [',,'.join(lst) + ',', ' ' + lst[0]]
+        c['multi'] = draw(st.sampled_from([0, 2, 3]))
         c['cli_pl'] = spell(pl)
         c['cli_pg'] = spell(pg)
         c['opts'] = cli.documented_options([f for f, opt, val in cli.FLAGS if opt != '*annotations' and opts.get(opt) == val and api.DEFAULTS.get(opt) != val])
@@ -194,7 +216,7 @@ def shard(ctx):
         else:
             nt = c.get('entry') is not None
         ctx.case(sha(c['source'], api.opts_key(c['opts']), repr(c['pl']), repr(c['pg']), c['mode']), nt,
-                 classes=['mode:' + c['mode'], 'pl:' + type(c['pl']).__name__, 'pg:' + type(c['pg']).__name__] + (['__all__'] if '__all__' in c['source'] else []) + (['preserve-bites'] if nt else []),
+                 classes=['mode:' + c['mode'] + ('-multi' if c.get('multi') else ''), 'pl:' + type(c['pl']).__name__, 'pg:' + type(c['pg']).__name__] + (['__all__'] if '__all__' in c['source'] else []) + (['preserve-bites'] if nt else []),
                  sample={'source': c['source'][:300], 'preserve_locals': c['pl'], 'preserve_globals': c['pg'], 'mode': c['mode'], 'options_on': api.on_list(c['opts'])})
         if r is not None:
             ctx.fail({k: v for k, v in c.items() if k != 'features'}, tuple(r[0]), r[1])
